@@ -16,6 +16,8 @@ def _one(job):
            "--mode", mode, "--out", out]
     if cases:
         cmd += ["--cases", cases]
+    if tag.startswith("c07"):
+        cmd += ["--churn"]
     rc, so, se = C.sh(cmd, env=C.env_for_impl(hs), timeout=3000)
     if rc != 0:
         return {"error": (so + se)[-3000:], "job": [mode, hs, seed, n]}
